@@ -58,8 +58,11 @@ def parse_spec(spec):
     if alt or grp or prec or (typ not in (None, "d")):
         raise Abort("unsupported format spec %r" % spec)
     width = int(width) if width else 0
-    if zero and not align:
-        fill, align = "0", "="
+    if zero:
+        if fill is None:
+            fill = "0"
+        if not align:
+            align = "="
     if not align:
         align = ">"
     if fill is None:
